@@ -526,6 +526,9 @@ def q4_q5(model: Model, rep: Report):
     guards_i = atoms_of(fiv.cond)
 
     def is_np_any_over_edges(a: Term, elt_pred) -> bool:
+        if a[0] == "quant" and a[1] == "any" and a[2][0] == "comp":
+            comp = a[2]          # the builtin any(..) over the same list
+            return len(comp[3]) == 1 and not comp[3][0][1] and comp[3][0][0] == eds and elt_pred(comp[2])
         if not (a[0] == "call" and a[1] == ("attr", ("global", "np"), "any") and len(a[2]) == 1 and a[2][0][0] == "comp"):
             return False
         comp = a[2][0]
@@ -587,6 +590,9 @@ def q4_q5(model: Model, rep: Report):
         if m[2] or mk.get("qubit_id") != N or mk.get("connectivity") != con_sym:
             return False, "on_moving_side is not asked for the neighbour"
         if mk.get("edge_id") != first_edge(eds_sym, N):
+            if mk.get("edge_id") is not None and subterms(mk.get("edge_id"), lambda y: y[0] == "comp" and isinstance(y[2], tuple) and y[2] and y[2][0] in ("tuple", "new")):
+                # a look-up through tables that were not reduced to the known ones (pairs / records built on the spot): not read -- no verdict
+                raise AnalysisError(f"requires-parking / requires-idle: the gate handed to on_moving_side is looked up through tables that are not read ({show(mk.get('edge_id'))[:100]})")
             return False, f"on_moving_side is asked about {show(mk.get('edge_id'))[:120]}, not about the gate the neighbour is part of"
         return True, ""
     ok, why = final_ok(fpv.value, "is_higher_than", False, el, con, eds, getattr(fpv, "path", None))
@@ -706,6 +712,15 @@ def q6(model: Model, rep: Report):
         comp = as_single_comp(p, kept) if kept is not None else None
         while comp is not None and comp[0] == "var" and comp[3][0] == "comp":
             comp = comp[3]
+        kv = kept
+        while kv is not None and kv[0] == "var" and len(kv) == 4:
+            kv = kv[3]
+        if kv is not None and kv[0] == "list" and kv[1] and p.cond != TRUE and not find_calls(("tuple", tuple(e.term for e in p.events if e.term is not None) + (p.cond,)), "get_mutually_allowed"):
+            # a way out that emits a grouping written down by hand, on a path that never asks get_mutually_allowed: the step is emitted unchecked
+            rep.fail("C16.Q6", "GateSequenceGenerator.construct_allowed_gate_sequences[unchecked way out]", f.loc, found=f"returns {show(kv)[:80]} when [{show(p.cond)[:80]}]",
+                     required="every emitted step passed get_mutually_allowed", what=f"when [{show(p.cond)[:80]}] a grouping is emitted without the acceptance test: steps whose gates "
+                     "share a qubit or collide in frequency are handed out", detail="unchecked-exit")
+            continue
         if comp is None or comp[0] != "comp" or len(comp[3]) != 1:
             raise AnalysisError(f"construct_allowed_gate_sequences: the kept groupings are not read as a filtered list of all groupings ({show(kept)[:120] if kept else None})")
         dom, conds = comp[3][0]
